@@ -103,14 +103,17 @@ def generate(ck, tier):
         ck.add_tlc(r5, "fifo/budget3 simulation (4000 behaviours, depth 70)")
         return [f for f in sc.schedules_from(p5) if len(f) == 3]
 
-    threads = [job("singles", g_singles), job("pairs", g_pairs), job("mixed", g_mixed), job("window", g_window),
+    def g_coll():
+        return sc.gen_collision_schedules(ck, tier)
+
+    threads = [job("coll", g_coll), job("singles", g_singles), job("pairs", g_pairs), job("mixed", g_mixed), job("window", g_window),
                job("burst", g_burst), job("triples", g_triples)]
     for t in threads:
         t.join()
     if errs:
         raise errs[0]
-    global WINDOW_SCHEDS, TRIPLES, BURST_SCHEDS
-    WINDOW_SCHEDS, BURST_SCHEDS, TRIPLES = box["window"], box["burst"], box["triples"]
+    global WINDOW_SCHEDS, TRIPLES, BURST_SCHEDS, COLLISION_SCHEDS
+    WINDOW_SCHEDS, BURST_SCHEDS, TRIPLES, COLLISION_SCHEDS = box["window"], box["burst"], box["triples"], box["coll"]
     pairs, finished = box["pairs"]
     return box["singles"], pairs, box["mixed"], finished
 
@@ -118,6 +121,7 @@ def generate(ck, tier):
 WINDOW_SCHEDS = []
 TRIPLES = []
 BURST_SCHEDS = []
+COLLISION_SCHEDS = []
 TSN_SPACES = [None, {"init_tsn_a": WRAP_A, "init_tsn_b": 7000}, {"init_tsn_a": 1000, "init_tsn_b": 500000},
               {"init_tsn_a": 500000, "init_tsn_b": 1000}, {"init_tsn_a": WRAP_A, "init_tsn_b": WRAP_B}]
 
@@ -214,6 +218,8 @@ def build_scenarios(singles, pairs, mixed, tier):
         msgs = [{"from": "A", "sid": 1, "len": rng.choice([900, 1100, 1172])} for _ in range(n)]
         msgs += [{"from": "A", "sid": 1, "len": 5, "phase": 2}, {"from": "B", "sid": 1, "len": 5, "phase": 2}]
         scen.append(sc.scenario(f"u{i:03d}", g, [sc.chan(1)], msgs))
+    # INIT collision (both ends send INIT)
+    scen += sc.collision_scenarios(COLLISION_SCHEDS, rng, limit=12 if tier == "quick" else 200, seed=vlib.seed() + 62, idle_ms=0)
     # a closing / closed receive window with delayed or late-duplicated SACKs (stale zero-window SACK)
     scen += sc.window_scenarios(WINDOW_SCHEDS, rng, limit=40 if tier == "quick" else 400, seed=vlib.seed() + 31)
     for i, f in enumerate([[]] + mixed):
